@@ -18,7 +18,9 @@ from flow import Flow, last_seg
 
 LOOP_LIMIT = 1 << 16
 UNBOUNDED_ITERS = ("Repeat", "Cycle", "FromFn", "Successors", "RepeatWith", "RangeFrom")
-CONSUMERS = ("next", "next_expect", "next_as", "next_word", "next_lexeme", "next_hex_byte", "read_byte", "advance_pos", "skip_whitespace",
+# functions that take at least one byte / token from a cursor or fail (skip_whitespace is not among them: it succeeds without moving when there
+# is nothing to skip)
+CONSUMERS = ("next", "next_expect", "next_as", "next_word", "next_lexeme", "next_hex_byte", "read_byte", "advance_pos",
              "parse_with_lexer", "parse_with_lexer_ctx", "_parse_with_lexer_ctx", "parse_indirect_object", "parse_indirect_stream", "read_u64_from_stream",
              "next_non_whitespace_char", "parse_stream_object", "parse_dictionary_object", "back", "seek_substr_back")
 CONSUMER_OWNERS = ("Lexer", "StringLexer", "HexStringLexer", "parser::", "parse_xref")
@@ -27,6 +29,62 @@ CONSUMER_OWNERS = ("Lexer", "StringLexer", "HexStringLexer", "parser::", "parse_
 def is_consumer(t):
     n = F.callee_name(t)
     return last_seg(n) in CONSUMERS and any(o in n for o in CONSUMER_OWNERS)
+
+
+def progress_edges(b, cfg, fl, t, body):
+    """CFG edges inside the loop that are taken only when the consumer call t succeeded (took input): the success arm of the switch on its
+    Result / Option (directly, after `?` = Try::branch, or after is_err()/is_ok()/is_some()/is_none()).  A result that is dropped or
+    defaulted (`unwrap_or(0)`, `.ok()`) yields no such edge: nothing ties the iteration to the input then."""
+    if t.get("dest") is None:
+        return set()
+    ty = b["locals"][t["dest"][0]]["s"]
+    if not (ty.startswith("std::result::Result<") or ty.startswith("std::option::Option<")):
+        return set()
+    res = {t["dest"][0]: ("opt" if ty.startswith("std::option::Option<") else "res")}
+    flags = {}
+    for _ in range(4):
+        for i, j, st in F.stmts(b):
+            if st[0] == "assign" and len(st[1]) == 1 and st[2][0] in ("use", "ref"):
+                src = F.op_local(st[2][1]) if st[2][0] == "use" else (st[2][1][0] if len(st[2][1]) == 1 else None)
+                if src in res and st[1][0] not in res:
+                    res[st[1][0]] = res[src]
+        for ci, ct in F.calls(b):
+            if not (ct.get("dest") and ct["args"] and F.op_local(ct["args"][0]) in res):
+                continue
+            seg = last_seg(F.callee_name(ct))
+            kind = res[F.op_local(ct["args"][0])]
+            if seg in ("branch", "map_err", "and_then", "map", "ok_or", "ok_or_else") and ct["dest"][0] not in res:
+                res[ct["dest"][0]] = "res" if seg in ("branch", "ok_or", "ok_or_else") else kind
+            if seg in ("is_err", "is_none"):
+                flags[ct["dest"][0]] = 0          # success <=> flag is false
+            if seg in ("is_ok", "is_some"):
+                flags[ct["dest"][0]] = 1
+    out = set()
+    for i in body:
+        bb = b["blocks"][i]
+        tt = bb["term"]
+        if tt["k"] != "switch":
+            continue
+        dl = F.op_local(tt["discr"])
+        arms = {a[0]: a[1] for a in tt["arms"]}
+        if dl in flags:
+            want = flags[dl]
+            tgt = arms.get(want, tt.get("otherwise")) if want in arms or want == 1 else tt.get("otherwise")
+            if want == 1 and 1 not in arms:
+                tgt = tt.get("otherwise")
+            if tgt is not None:
+                out.add((i, tgt))
+            continue
+        for st in bb["stmts"]:
+            if st[0] == "assign" and st[1] == [dl] and st[2][0] == "discr" and st[2][1][0] in res:
+                want = 1 if res[st[2][1][0]] == "opt" else 0
+                tgt = arms.get(want)
+                if tgt is None:
+                    # the success value is the switch's fall-through only if every other value has an arm
+                    tgt = tt.get("otherwise") if (1 - want) in arms else None
+                if tgt is not None:
+                    out.add((i, tgt))
+    return out
 
 
 def loop_witness(f, b, cfg, head, body, taint):
@@ -61,6 +119,32 @@ def loop_witness(f, b, cfg, head, body, taint):
             if not ok:
                 return False
         return True
+
+    def must_cross(edges):
+        """every path from the head back to it inside the loop takes one of the edges"""
+        if not edges:
+            return False
+        for bk in backs:
+            seen = set()
+            st = [head]
+            while st:
+                x = st.pop()
+                if x in seen:
+                    continue
+                seen.add(x)
+                if x == bk:
+                    return False
+                for s2 in cfg.succ[x]:
+                    if s2 in body and s2 != head and (x, s2) not in edges:
+                        st.append(s2)
+        return True
+
+    def consumed():
+        es = set()
+        for bi2, t2 in calls:
+            if is_consumer(t2):
+                es |= progress_edges(b, cfg, fl, t2, body)
+        return es
 
     # --- iterator / range -----------------------------------------------------------------------
     for bi, t in calls:
@@ -103,12 +187,11 @@ def loop_witness(f, b, cfg, head, body, taint):
             return "range", "numeric range whose file-derived end is bounded by %d" % end_val.bound
         if end_guarded:
             return "range", "numeric range whose file-derived end is compared before the loop"
-        if must_pass([bi2 for bi2, t2 in calls if is_consumer(t2)]):
-            return "range", "numeric range with a file-derived end, but every iteration consumes input"
+        if must_cross(consumed()):
+            return "range", "numeric range with a file-derived end, but every iteration consumes input (and leaves the loop when there is none)"
         return None, "loop over a numeric range whose end %s comes from the file and is neither compared nor bounded, and the body does not consume input" % end_val
     # --- consume ---------------------------------------------------------------------------------
-    cons = [bi for bi, t in calls if is_consumer(t)]
-    if must_pass(cons):
+    if must_cross(consumed()):
         names = sorted({last_seg(F.callee_name(t)) for bi, t in calls if is_consumer(t)})
         return "consume", "every iteration calls %s" % "/".join(names)
     # --- monotone --------------------------------------------------------------------------------
@@ -122,13 +205,15 @@ def loop_witness(f, b, cfg, head, body, taint):
                 cond_locals |= {x for x in taint.ancestors(b, dl, True) if isinstance(x, int)}
     adv = []
     for i, j, s in F.stmts(b):
-        if i in body and s[0] == "assign" and len(s[1]) == 1 and s[1][0] in cond_locals and s[2][0] == "use":
-            src = F.op_place(s[2][1])
-            if src is None:
-                continue
-            for a in fl.origins(src[0], passthrough=()):
-                if a[0] == "binop" and a[1].startswith("Add"):
-                    adv.append(i)
+        # `v = v + ... + c` (c >= 1, everything unsigned): the loop variable itself is stepped forward, inside the loop.  The sum is
+        # recovered as an expression, so `start = c + 1; end = start + n + 1; c = end` counts
+        if i in body and s[0] == "assign" and len(s[1]) == 1 and s[1][0] in cond_locals and s[2][0] == "use" and \
+                b["locals"][s[1][0]]["s"] in ("usize", "u64", "u32", "u16", "u8"):
+            key = taint.expr_key(b, s[2][1])
+            terms = _flatten_add(key)
+            me = taint.expr_key(b, ["copy", [s[1][0]]])
+            if len(terms) >= 2 and me in terms and any(t0[0] == "c" and isinstance(t0[1], int) and t0[1] >= 1 for t0 in terms):
+                adv.append(i)
     # a field advanced in place (`self.pos += 1`)
     for i, j, s in F.stmts(b):
         if i in body and s[0] == "assign" and len(s[1]) > 1 and s[2][0] == "use":
@@ -165,7 +250,9 @@ def loop_witness(f, b, cfg, head, body, taint):
         looked = taint.expr_key(b, t["args"][1]) if len(t["args"]) > 1 else None
         adds = [bi2 for bi2, t2 in calls if last_seg(F.callee_name(t2)) in ("push", "insert", "push_back") and root is not None and (coll_root(t2["args"][0]) or frozenset()) & root
                 and len(t2["args"]) > 1 and taint.expr_key(b, t2["args"][1]) == looked]
-        if hit_leaves and adds and must_pass(adds) and must_pass([bi]):
+        # the collection outlives the iterations: it is created before the loop (one made afresh in every iteration remembers nothing)
+        made_inside = root is not None and any(kind in ("call", "agg") and where in body for kind, where in root)
+        if hit_leaves and adds and must_pass(adds) and must_pass([bi]) and not made_inside:
             return "seen-set", "every iteration looks the driving value up in a collection (leaving on a hit) and adds it"
     # --- shrink: the slice the loop works on is replaced by a strictly shorter tail of itself ------------
     shr = []
@@ -177,6 +264,29 @@ def loop_witness(f, b, cfg, head, body, taint):
                     so = a[3][2][0]
                     sl = F.op_local(so)
                     c = F.const_int(so)
+                    # ... and the tail is stored back into the very variable it was cut from (`data = &data[1..]`): a tail that is only
+                    # looked at (`buf[pos..].iter().position(..)`) shrinks nothing
+                    base = F.op_local(t["args"][0])
+                    broots = {x[1] for x in fl.origins(base, passthrough=("deref", "deref_mut")) if x[0] == "arg"} if base is not None else set()
+                    bl = set()
+                    x0 = base
+                    for _ in range(6):
+                        if x0 is None:
+                            break
+                        bl.add(x0)
+                        ds = fl.defs.get(x0, [])
+                        x0 = None
+                        if len(ds) == 1 and ds[0][0] == "assign" and ds[0][2][0] in ("use", "ref"):
+                            pl0 = F.op_place(ds[0][2][1]) if ds[0][2][0] == "use" else ds[0][2][1]
+                            x0 = pl0[0] if pl0 else None
+                    stored_back = False
+                    for i2, j2, st2 in F.stmts(b):
+                        if i2 in body and st2[0] == "assign" and st2[1][0] in bl and st2[2][0] in ("use", "ref"):
+                            src = F.op_local(st2[2][1]) if st2[2][0] == "use" else st2[2][1][0]
+                            if src is not None and any(y[0] == "call" and y[2] == bi for y in fl.origins(src)):
+                                stored_back = True
+                    if not stored_back:
+                        continue
                     if c is not None and c >= 1:
                         shr.append(bi)
                     for x in fl.origins(sl, passthrough=()) if sl is not None else []:
